@@ -60,6 +60,9 @@ class _TextCueParser:
     # begin time, relative to the cue, of the text that follows the latest timestamp tag
     self.text_begin: typing.Optional[Fraction] = None
 
+    # names of the tags that are currently open, innermost last
+    self.open_tags: typing.List[str] = []
+
     # handle the special case of ruby elements where children cannot be added one by one
     self.ruby_rbc: typing.Optional[model.Rbc] = None
     self.ruby_rtc: typing.Optional[model.Rtc] = None
@@ -102,12 +105,14 @@ class _TextCueParser:
       span.push_children([self.ruby_rbc, self.ruby_rtc])
       self.parent.push_child(span)
       self.parent = span
+      self.open_tags.append(tag)
       return
 
     if tag.startswith("rt"):
       span = model.Rt(self.parent.get_doc())
       self.ruby_rtc.push_child(span)
       self.parent = span
+      self.open_tags.append(tag)
       return
 
     # all other tags can be handled as a span
@@ -115,6 +120,7 @@ class _TextCueParser:
     span = self._make_span(self.parent)
     self.parent.push_child(span)
     self.parent = span
+    self.open_tags.append(tag)
 
     if isinstance(span.parent(), model.P):
       span.set_style(styles.StyleProperties.BackgroundColor, _DEFAULT_BG_COLOR)
@@ -154,7 +160,23 @@ class _TextCueParser:
       LOGGER.warning("Unknown tag %s at line %s", tag, self.line_num)
       return
 
-  def _handle_endtag(self, _token: EndTagToken):
+  def _handle_endtag(self, token: EndTagToken):
+    # an end tag closes the current element if their names match, </ruby> also closes an open <rt>,
+    # and is ignored otherwise (see https://www.w3.org/TR/webvtt1/#webvtt-cue-text-parsing-rules)
+
+    tag = token.tag.lower()
+
+    if len(self.open_tags) > 0 and self.open_tags[-1] == tag:
+      self._close_current_tag()
+    elif tag == "ruby" and self.open_tags[-2:] == ["ruby", "rt"]:
+      self._close_current_tag()
+      self._close_current_tag()
+    else:
+      LOGGER.warning("Ignoring end tag %s at line %s", token.tag, self.line_num)
+
+  def _close_current_tag(self):
+
+    self.open_tags.pop()
 
     if isinstance(self.parent, model.Ruby):
       self.ruby_rbc = None
